@@ -106,6 +106,27 @@ Theorem C01_stable_float_sci : forall f dd up sep s m e, kind f = KFloat dd true
 Proof. exact stable_float_sci_faithful. Qed.
 Print Assumptions C01_stable_float_sci.
 
+(* every float field, either notation, either separator, every finite binary64 value (zeros included) whose text fits:
+   one write/read cycle never drifts *)
+Theorem C01_stable_float_all : forall f dd sci up sep x, kind f = KFloat dd sci up sep ->
+  (sep = [DOT] \/ sep = [44%N]) ->
+  match x with
+  | S754_zero _ => True
+  | S754_finite _ m e => SpecFloat.bounded 53 1024 m e = true
+  | _ => False
+  end ->
+  fits f (VFloat x) = true -> stable_field f (VFloat x).
+Proof.
+  intros f dd sci up sep x K Hs Hx Hf. destruct x as [s|s| |s m e]; try contradiction.
+  - destruct sci.
+    + exact (stable_float_sci_zero f dd up sep s K Hs Hf).
+    + exact (stable_float_zero f dd up sep s K Hs).
+  - destruct sci.
+    + exact (proj1 (stable_float_sci_faithful f dd up sep s m e K Hs Hx Hf)).
+    + exact (stable_float_fixed f dd up sep s m e K Hs Hx Hf).
+Qed.
+Print Assumptions C01_stable_float_all.
+
 (* ---------------------------------------------------------------------------------------------------------------
    Where the property's half-unit clause FAILS on the faithful model (and on the code: the check replays these; they are the
    recorded findings of known_findings.json).  Closed, by computation. *)
